@@ -413,7 +413,7 @@ func (s *Sim) authCheck(b UBundle, data []byte, refValid bool, what string) {
 		return
 	}
 	if s.avv == nil {
-		s.avvPool = newSimPool()
+		s.avvPool = newSimPool(nil)
 		s.avv = agreement.MakeAsyncVoteVerifier(s.avvPool)
 	}
 	in := &inst{sim: s, node: n, release: make(chan struct{}), zombie: false}
